@@ -8,6 +8,7 @@ import (
 	"sort"
 	"strings"
 	"sync"
+	"sync/atomic"
 	"time"
 
 	"github.com/twmb/franz-go/pkg/kfake"
@@ -70,9 +71,15 @@ type gcfg struct {
 	slowcb bool // rebalance callbacks take 2 virtual seconds (and the revoke callback commits)
 	envB   bool // a second member joins when A starts its second call
 	k848   bool
+	hold   bool // the broker holds the member's first JoinGroup for joinHold; the application starts once it is in flight
 }
 
 const cbThink = 2 * time.Second
+
+// joinHold: how long the broker sits on the first JoinGroup in the "hold"
+// configurations (a slow coordinator), so that the application's first calls
+// land inside the join&sync on the default schedule.
+const joinHold = time.Second
 
 func gcfgs() []gcfg {
 	direct := kgo.ConsumePartitions(map[string]map[int32]kgo.Offset{"t": {0: kgo.NewOffset().At(0), 1: kgo.NewOffset().At(0)}})
@@ -88,6 +95,8 @@ func gcfgs() []gcfg {
 		{name: "eager", kind: kGroup, opts: []kgo.Opt{kgo.Balancers(kgo.RangeBalancer())}},
 		{name: "eager-slowcb+B", kind: kGroup, opts: []kgo.Opt{kgo.Balancers(kgo.RangeBalancer())}, slowcb: true, envB: true},
 		{name: "coop", kind: kGroup},
+		{name: "coop-hold", kind: kGroup, hold: true},
+		{name: "eager-hold+B", kind: kGroup, opts: []kgo.Opt{kgo.Balancers(kgo.RangeBalancer())}, hold: true, envB: true},
 		{name: "coop+B", kind: kGroup, envB: true},
 		{name: "coop-slowcb+B", kind: kGroup, slowcb: true, envB: true},
 		{name: "coop-noauto-mcf1", kind: kGroup, opts: []kgo.Opt{kgo.DisableAutoCommit(), kgo.MaxConcurrentFetches(1)}},
@@ -106,6 +115,8 @@ func gcfgs() []gcfg {
 //	          a EndTransaction(abort)  f Flush
 //	consumer: o PollFetches (4 s)  c CommitUncommittedOffsets (group)
 //	          w AllowRebalance (BlockRebalanceOnPoll)
+//	          k CommitOffsetsSync(t/0@0) with a 200 ms context (gives up while
+//	            a join&sync is in flight)   r ForceRebalance (group)
 //	share:    o PollFetches  F ack everything held + FlushAcks
 func alphabet(c gcfg) string {
 	switch c.kind {
@@ -119,9 +130,9 @@ func alphabet(c gcfg) string {
 		return "oF-"
 	}
 	if c.block {
-		return "ocw"
+		return "ocwkr"
 	}
-	return "oc-"
+	return "ockr-"
 }
 
 func scripts(alpha string, maxLen int) []string {
@@ -312,6 +323,20 @@ func genScenario() *netctl.Scenario {
 			if cfg.kind != kProd && cfg.kind != kTxn {
 				preload(x, c, 2)
 			}
+			joinSeen := make(chan struct{})
+			if cfg.hold {
+				// Registered before the loading control so that it runs first;
+				// it does not handle the request, it only delays it.
+				var held atomic.Bool // not sync.Once: a second JoinGroup (member B) may run this while the first sleeps
+				c.ControlKey(11, func(kmsg.Request) (kmsg.Response, error, bool) {
+					c.DropControl() // only the very first JoinGroup is held
+					if held.CompareAndSwap(false, true) {
+						close(joinSeen)
+						c.SleepControl(func() { time.Sleep(joinHold) })
+					}
+					return nil, nil, false
+				})
+			}
 			g.loadingControl(c)
 
 			opts := append([]kgo.Opt{}, cfg.opts...)
@@ -484,6 +509,15 @@ func genScenario() *netctl.Scenario {
 						g.res("begin:%s", nscen.ErrClass(err))
 					}
 				}
+				if cfg.hold {
+					// The application starts while the first join is in flight.
+					tm := time.NewTimer(10 * time.Second)
+					select {
+					case <-joinSeen:
+					case <-tm.C:
+					}
+					tm.Stop()
+				}
 				for i, op := range a {
 					label := fmt.Sprintf("%d-%c", i, op)
 					t.Step(label)
@@ -544,6 +578,17 @@ func genScenario() *netctl.Scenario {
 						cancel()
 					case 'w':
 						g.cl.AllowRebalance()
+					case 'k':
+						ctx, cancel := context.WithTimeout(ctxA, 200*time.Millisecond)
+						g.cl.CommitOffsetsSync(ctx, map[string]map[int32]kgo.EpochOffset{"t": {0: {Epoch: -1, Offset: 0}}},
+							func(_ *kgo.Client, _ *kmsg.OffsetCommitRequest, _ *kmsg.OffsetCommitResponse, err error) {
+								if err != nil {
+									g.res("%s:%s", label, nscen.ErrClass(err))
+								}
+							})
+						cancel()
+					case 'r':
+						g.cl.ForceRebalance()
 					case 'F':
 						g.mu.Lock()
 						held := g.held
